@@ -198,6 +198,9 @@ pub enum Op {
     /// poll the harness event log (not the actor) until `count` events of kind `what` (0 = stopped() exits,
     /// 1 = tick handler entries, 2 = delayed_exec bodies) of actor `tag` were seen; bounded wait
     AwaitLog { tag: u32, what: u8, count: u32 },
+    /// like AwaitLog, but waits synchronously (blocks the calling thread between polls): only an actor that really
+    /// runs on the runtime's own workers can make progress meanwhile (what: 3 = started() exits)
+    AwaitLogSync { tag: u32, what: u8, count: u32 },
     /// run `ops` as a new client task that takes over the listed slots
     Fork { ops: Vec<Op>, moved: Vec<u16> },
     // registry (k = service type 1|2)
